@@ -348,6 +348,9 @@ pub fn check_word(word: &[Sym], seed: u64) -> Option<CheckResult> {
             });
         }
         let mut o = Outcome::new(nontrivial, h);
+        if st.tag_chunks >= 2 {
+            o.labels.push("several-tags-chunks".into());
+        }
         if ign_between {
             o.labels.push("non-entity-chunk-before-record".into());
         }
